@@ -42,6 +42,14 @@ CLAIMED = {
    text="on the C01 pipeline, every named item of every compiled module is checked by TLC (ContractIntro!C19) for `pub` and for rustc's verdict on the promised trait-bound assertions (Debug+Clone+Serialize+DeserializeOwned+From<&T>; Copy/Eq/Ord/Hash for data-less enums; Eq/Ord/Hash for String newtypes)",
    note="bounded as C01; trusted: TLC, syn, rustc, vdrive",
    ref="DESIGN.md 6 C19"),
+ "C05": dict(
+   text="TLC generates candidate instances for every document of the enforced-construct universe and classifies them with Schema!Valid and ContractSerde!EnforcedViolation (exactly the constraint kinds the property lists); the compiled generated types are run on every candidate and on every probe string; TLC validates the recorded events: an instance violating an enforced constraint is rejected, FromStr/TryFrom agree with Deserialize, and constrained newtypes expose no public field or From<inner>",
+   note="bounded: ~100 documents, ~3000 instances/probe strings; trusted: TLC, Schema.tla (self-checked against jsonschema), rustc, serde, syn, vdrive",
+   ref="DESIGN.md 6 C05"),
+ "C11": dict(
+   text="on the C05 pipeline: for every string-like type (enums with odd/renamed/keyword values, plain and constrained string newtypes, untagged enums of string alternatives, formatted natives) and every probe string, TLC validates that each conversion the rendered output offers (FromStr, TryFrom<&str>, TryFrom<String>, TryFrom<&String>) succeeds exactly when deserialising the JSON string does, with the same value, and that Display equals the serialised string",
+   note="bounded as C05; conversions are probed only where the syn inventory shows the impl; trusted: TLC, rustc, serde, syn, vdrive",
+   ref="DESIGN.md 6 C11"),
 }
 NA_REASON = {}
 DEFAULT_NA = "check under construction in this session (DESIGN.md 11); not yet claimed"
